@@ -2,6 +2,7 @@
 
 from __future__ import absolute_import
 
+import json
 import sys
 
 import awkward as ak
@@ -14,6 +15,11 @@ class TreeToJson(Transformer):
         (s,) = s
         if sys.version_info[0] == 2:
             s = s.encode("utf-8")
+        if s.startswith('"'):
+            try:
+                return json.loads(s)
+            except ValueError:
+                pass
         return s[1:-1]
 
     def number(self, n):
